@@ -2,6 +2,8 @@ import core, cache_corr
 RULE = "see C05"
 TRUSTED_BASE = []
 def run(ctx):
+    import translate_stale
+    translate_stale.check(ctx)      # caching.py's stale decision and _util.safe_max, translated to Gallina and linked to the model by theorems
     camp = cache_corr.Campaign(ctx)
     cache_corr.history_campaign(ctx, camp, ctx.n(60, 1200), ctx.n(6, 8))
     import cache_files
